@@ -273,6 +273,20 @@ pub struct Rec {
 	pub fixed: Option<usize>,
 }
 
+#[derive(Clone, Copy, Debug, PartialEq)]
+pub enum LenKind {
+	/// node_announcement addrlen, block holds >= 1 known descriptor and no unknown tail
+	AddrsKnownOnly,
+	/// tx_add_input prevtx_len with a transaction present
+	PrevTx,
+	/// tx_signatures per-witness length
+	Witness,
+	/// encoded_short_ids length
+	Scids,
+	/// u16-prefixed byte string that is the last mandatory field of a message with a TLV stream
+	LastVar16,
+}
+
 #[derive(Default, Clone, Debug)]
 pub struct Built {
 	pub bytes: Vec<u8>,
@@ -291,6 +305,8 @@ pub struct Built {
 	pub enc_type: Option<usize>,
 	/// start of the free-form tail (gossip excess data)
 	pub rest_start: Option<usize>,
+	/// inner u16 length descriptors whose disagreement with the content has a crisp verdict
+	pub inner_lens: Vec<(usize, LenKind)>,
 	pub b0: bool,
 	pub b1: bool,
 	pub bmax: bool,
@@ -433,6 +449,7 @@ impl<'a> G<'a> {
 			},
 			F::Scids => {
 				let n = self.choose(8, 0, 8190);
+				self.m.inner_lens.push((self.out.len(), LenKind::Scids));
 				self.put16(1 + 8 * n);
 				self.m.enc_type = Some(self.out.len());
 				self.out.push(0);
@@ -464,6 +481,7 @@ impl<'a> G<'a> {
 							w.extend(r.bytes(l));
 						}
 					}
+					self.m.inner_lens.push((self.out.len(), LenKind::Witness));
 					self.put16(w.len());
 					self.out.extend(w);
 				}
@@ -482,6 +500,7 @@ impl<'a> G<'a> {
 				} else {
 					let tx = build_tx(&mut r, req.max(64).min(avail), avail);
 					self.budget -= tx.len();
+					self.m.inner_lens.push((self.out.len(), LenKind::PrevTx));
 					self.put16(tx.len());
 					self.out.extend(tx);
 				}
@@ -508,6 +527,7 @@ impl<'a> G<'a> {
 				}
 				let avail = self.budget.min(0xffff);
 				let mut a: Vec<u8> = vec![];
+				let mut tail = false;
 				if !self.dry {
 					loop {
 						let d = address(&mut r);
@@ -521,11 +541,15 @@ impl<'a> G<'a> {
 						// address block is opaque but signed, and must survive
 						let t = [0u8, 6, 7, 42, 255][r.below(5) as usize];
 						a.push(t);
+						tail = true;
 						let extra = (req.saturating_sub(a.len())).min(avail - a.len());
 						let cap = 1 + r.below(300) as usize;
 						a.extend(r.bytes(extra.min(cap)));
 					}
 					self.budget -= a.len();
+				}
+				if !a.is_empty() && !tail {
+					self.m.inner_lens.push((self.out.len(), LenKind::AddrsKnownOnly));
 				}
 				self.put16(a.len());
 				self.out.extend(a);
@@ -744,6 +768,10 @@ fn run_once(spec: &Spec, inst: &Inst, budget: usize, dry: bool, cap_small: bool)
 	let mut g = G { main: Rng(inst.seed), lens: &inst.lens, li: 0, budget, dry, cap_small, out: vec![], m: Built::default() };
 	for f in spec.f.iter() {
 		g.field(f);
+	}
+	if spec.tlv.is_some() && spec.f.last() == Some(&F::Var16) {
+		let o = *g.m.field_offs.last().unwrap();
+		g.m.inner_lens.push((o, LenKind::LastVar16));
 	}
 	if let Some(tlvs) = spec.tlv {
 		g.m.tlv_start = Some(g.out.len());
